@@ -592,4 +592,17 @@ theorem deleteRange_never_raises (S : Schema) (hS : S ∈ familySchemas) (doc : 
     (family_closable _ hS) (family_textStableC _ hS) (family_textAbsorb _ hS) (family_joinCompat _ hS)
     (family_reopenOK _ hS) (family_inlineUniform _ hS) doc f t hv hdoc hn hattrs hhc htop hft ht hpf hpt
 
+/-- `PM.C11.replaceRange_delete_applies` with its schema guards discharged for the bundled schema family -/
+theorem replaceRange_delete_applies (S : Schema) (hS : S ∈ familySchemas) (doc : Node) (f t : Nat) (sl : Slice)
+    (hsz : (sl.size == 0) = true) (cs : List (Nat × Nat × Slice)) (hv : C01.Valid S doc) (hdoc : C01.IsElem doc)
+    (hn : fnorm doc.kids = true) (hattrs : S.nodeAttrsOK doc = true) (hhc : highClosedKids doc.kids = true)
+    (hft : f ≤ t) (ht : t ≤ fsize doc.kids) (hpf : pairAligned doc f = true) (hpt : pairAligned doc t = true)
+    (h : replaceRangeCalls S doc f t sl = some cs) (c : Nat × Nat × Slice) (hc : c ∈ cs) (st : Step)
+    (hst : replaceStep S doc c.1 c.2.1 c.2.2 = .ok (some st)) :
+    ∃ doc', S.apply st doc = .ok doc' :=
+  PM.C11.replaceRange_delete_applies S (family_det _ hS) (family_fillersOK _ hS) (family_leafOk _ hS)
+    (family_closable _ hS) (family_textStableC _ hS) (family_textAbsorb _ hS) (family_joinCompat _ hS)
+    (family_reopenOK _ hS) (family_inlineUniform _ hS) doc f t sl hsz cs hv hdoc hn hattrs hhc hft ht hpf hpt h
+    c hc st hst
+
 end PM.Family.C11
